@@ -14,26 +14,32 @@ sys.path.insert(0, str(VERIF / "tools" / "gen"))
 import c09_stats as tr_stats  # noqa: E402
 
 ID = "C09"
-PROPS_FILES = ["Gama/Props/C09.lean"]
-LEAN_TARGETS = ["Gama.Props.C09"]
+PROPS_FILES = ["Gama/Props/C09.lean", "Gama/Props/C09Solvers.lean"]
+LEAN_TARGETS = ["Gama.Props.C09", "Gama.Props.C09Solvers"]
 DRIVERS = ["drv_stats"]
 RULE = ("generated noisy networks (2D direction/distance fixed and free, small-dof intersections, levelling, "
         "correlated coordinate clusters) x sigma-act x conf-pr in (0,1) x sigma-apr in {0.1..100} x 4 algorithms; "
         "plus 60 seed-independent structured networks on the guards of the formulas (exactly diagonal 2x2 blocks with "
         "q_yy >, <, = q_xx x 4 algorithms; sigma-apr triples 1 / 1000 / 0.001 under gso and svd compared field by field "
-        "with the scaling law) and a 7799-argument grid over the guard boundaries (regenerated formula vs reference "
+        "with the scaling law) and a 7835-argument grid over the guard boundaries (regenerated formula vs reference "
         "model vs Python definition at Float); "
         "one evaluation = one reported quantity (accessor value or XML field) recomputed from its inputs; "
         "distinct = (network, quantity index); non-trivial = adjusted network with at least one unknown")
 TRUSTED = [
     "tools/gen/c09_stats.py (translator network.{h,cpp}/localnetworkxml.cpp -> Gama/Gen/StatsGen.lean), validated "
     "by executing its output next to the C++ on every run",
-    "Scalar R / Trig R instances of Lemmas/StatsReal.lean: sqrt = Real.sqrt, atan2 y x = Complex.arg (x + y i), pi",
-    "hypotheses of C09_sigma_apr_scaling (Q -> Q/s^2, v'Pv -> s^2 v'Pv, q_bb unchanged) are LS9's conclusions, "
-    "checked numerically by the metamorphic pair of the oracle, proved in Lemmas/LS.lean by another check",
+    "Scalar R / StatsTrig R instances of Lemmas/StatsReal.lean: sqrt = Real.sqrt, atan2 y x = Complex.arg (x + y i), pi",
+    "hypotheses of the composed theorems of Props/C09Solvers.lean are those of the solver theorems they cite (C01/C03/C20: "
+    "static well-formedness of the problem, 'rank numerically unambiguous' on the model's own trace, the svd certificate); "
+    "C09_sigma_apr_scaling is about uncorrelated observations (diagonal weights, whitening diag(sigma-apr/stdev)) and takes "
+    "IsLSSolution of the two adjustments (the conclusion of the C01 theorems) as hypotheses",
+    "tools/gen/c09_stats.py also reads results/text/adjusted_{unknowns,observations}.h (every use of kki); the html and sql "
+    "writers (html.cpp, localnetwork2sql.cpp) are outside the property (text/XML) and not read",
 ]
 MODELLED = [
-    "values of GNU_gama::Normal / Student (C17): the driver is given their values at the argument the code must use",
+    "values of GNU_gama::Normal / Student: the driver is given their values at the argument the code must use; in the "
+    "theorems the coefficient functions are C17's models Statan.normal / Statan.student (same definitions C17's theorems and "
+    "drv_statan are about)",
     "libm sqrt/atan2/fabs at Float; IEEE rounding (theorems are over R)",
     "LocalNetwork::stashed_ellipses (SVG-only cache in std_error_ellipse) is not modelled",
     "iostream formatting of the XML numbers (oracle tolerances follow the printed precision)",
@@ -44,13 +50,18 @@ LEVEL_TEXT = ("Lean 4 theorems over the reals about every statistic formula of L
               "error ellipse = eigen-decomposition of the 2x2 cofactor block via the atan2 half angle with the bearing "
               "unique unless the eigenvalues coincide, invariance under sigma-apr); every guard / clamp is inside a "
               "statement about the REGENERATED formula that quantifies over both sides of the guard and over every "
-              "positive scale (no absolute threshold can hide in a guard); the 17 formulas (incl. the XML writer's "
-              "<aposteriori>, <ratio>, <err-obs>/<err-adj>) are regenerated from the C++ text on every run and proved "
+              "positive scale (no absolute threshold can hide in a guard); composed with the solver models "
+              "(C01/C03/C20 at the shared Scalar R) and the LS layer: dof = m - rank A = m - n + dim ker A = sum of redundancy "
+              "numbers, the 2x2 block of the returned cofactor matrix is PSD (derived) so the ellipse is its eigen-decomposition, "
+              "standard deviations = actual reference deviation x sqrt(solver cofactor) with the residual clamp never active, "
+              "confidence half-width = stdev x Student/Normal (C17's models) selected by sigma-act for every conf-pr in (0,1), "
+              "and sigma-apr scaling derived from LS9 + uniqueness for two adjustments; the 18 formulas (incl. the XML writer's "
+              "<aposteriori>, <ratio>, <err-obs>/<err-adj>, the text writers' half-width product and the table of its sites) are regenerated from the C++ text on every run and proved "
               "equal to the reference model; model executed at Float next to an in-process LocalNetwork; every numeric "
               "field of the XML result recomputed from the other fields; when a formula changes, the argument where it "
               "left the reference is found on a grid over the guard boundaries and realised as a network for gama-local.")
-LEVEL_NOTE = ("Not covered by the theorems: the values of the Normal/Student quantiles (C17), IEEE rounding, that the "
-              "solver's Q / v'Pv / defect are right (C01-C03). sigma_L of observations in clusters with a non-diagonal "
+LEVEL_NOTE = ("Not covered by the theorems: the values of the Normal/Student quantiles beyond what C17 proves, IEEE rounding; "
+              "the solver facts are cited from C01/C03/C20 under their hypotheses (svd: certificate). sigma_L of observations in clusters with a non-diagonal "
               "covariance matrix uses the uncorrelated formula in the C++ (theorem _partial; see report).")
 TECHNIQUE = "Lean 4 proof (real analysis: Complex.arg half-angle, sqrt) + source-to-Lean translator + correspondence + XML oracle"
 
@@ -1254,6 +1265,8 @@ GEN_KIND = {  # broken theorem / definition name -> grid op kinds that exercise 
     "studentized": ("obs",), "obsControl": ("obs",), "qvv": ("obs",), "m0": ("m0", "xml"), "xmlAposteriori": ("xml",),
     "xmlRatio": ("xml",), "ratio": ("xml",), "confIntCoef": ("conf",), "conf": ("conf", "accept"), "confPrAccepted": ("accept",),
     "dof": ("dof",), "unknownStdev": ("unk",), "covEntry": ("cov",), "errObsAdj": ("err",), "err": ("err",),
+    "confHalfWidth": ("hw", "conf", "unk"), "halfwidth": ("hw", "conf", "unk"), "halfWidthSites": ("hw", "conf", "unk"),
+    "stdev_of_solver": ("unk", "obs"), "solver": ("unk", "obs", "ell", "dof"),
 }
 
 
@@ -1309,6 +1322,9 @@ def guard_grid():
         for qvv in (1e-9, 0.15, 1.0, 1e6):
             for w in (1e-8, 1.0, 4.0, 1e8):
                 ops.append(f"err {H(v)} {H(qvv)} {H(w)}")
+    for sd in (0.0, 1e-9, 0.05, 1.0, 12.5, 1e6):
+        for kki in (0.0, 0.6745, 1.96, 2.2622, 12.706, 63.657):
+            ops.append(f"hw {H(sd)} {H(kki)}")
     for pr in (0.0, 1.0, -0.0, -1e-300, 5e-324, 1 - 2 ** -53, 1 + 2 ** -52, 0.5, 0.95, 2.0, -3.0):
         ops.append(f"accept {H(pr)}")
     return ops
@@ -1339,6 +1355,8 @@ def definition_check(op, rep):
             v, qvv, w = F(t[1]), F(t[2]), F(t[3])
             close("<err-obs> = v/(qrr p)", F(rep[0]), v / (qvv * w))
             close("<err-adj> = err-obs - v", F(rep[1]), v / (qvv * w) - v)
+        elif t[0] == "hw":
+            close("half-width = stdev x coefficient", F(rep[0]), F(t[1]) * F(t[2]))
         elif t[0] == "accept":
             pr = F(t[1])
             if (rep[0] == "1") != (0 < pr < 1):
@@ -1385,7 +1403,7 @@ def describe_hit(h):
     names = {"ell": ("cyy", "cyx", "cxx", "m0"), "obs": ("m0", "sigma_apr", "q_bb", "stdev", "residual"),
              "m0": ("sigma_act", "sigma_apr", "vPv", "dof"), "conf": ("sigma_act", "conf_pr", "dof", "p", "normal", "student"),
              "dof": ("rows", "cols", "defect"), "unk": ("m0", "q_xx"), "cov": ("m0", "q"), "xml": ("vPv", "sigma_apr", "dof"),
-             "err": ("v", "q_vv", "weight"), "accept": ("p",)}.get(t[0], ())
+             "err": ("v", "q_vv", "weight"), "accept": ("p",), "hw": ("stdev", "coefficient")}.get(t[0], ())
     out = lambda l: [hex2float(x) if is_hex(x) else x for x in l.split()[1:]]
     return {"formula": t[0], "argument": dict(zip(names, vals)), "regenerated_formula_gives": out(h["gen"]),
             "reference_model_gives": out(h["ref"]), "definition_violated": h["violations"]}
@@ -1493,10 +1511,14 @@ def realise(ctx, hits, kinds):
 
 def props_current(ctx):
     """did Gama.Props.C09 build against the current regenerated formulas (lake leaves no .olean after an error)"""
-    olean = ctx.lean / ".lake" / "build" / "lib" / "lean" / "Gama" / "Props" / "C09.olean"
-    srcs = [ctx.lean / "Gama" / "Gen" / "StatsGen.lean", ctx.lean / "Gama" / "Props" / "C09.lean"]
+    gen = ctx.lean / "Gama" / "Gen" / "StatsGen.lean"
     try:
-        return olean.stat().st_mtime >= max(x.stat().st_mtime for x in srcs)
+        for n in ("C09", "C09Solvers"):
+            olean = ctx.lean / ".lake" / "build" / "lib" / "lean" / "Gama" / "Props" / (n + ".olean")
+            src = ctx.lean / "Gama" / "Props" / (n + ".lean")
+            if olean.stat().st_mtime < max(gen.stat().st_mtime, src.stat().st_mtime):
+                return False
+        return True
     except OSError:
         return False
 
